@@ -604,7 +604,10 @@ class ExtendedKalmanFilter:
             return False
 
         editing_threshold = self.config.innovation_filtering  # type: float
-        normalized_innovation = innovation.transpose() * S_inv * innovation
+        # y.T * S^{-1} * y as a matrix product (scalar result)
+        normalized_innovation = np.matmul(
+            innovation.transpose(), np.matmul(S_inv, innovation)
+        ).item()
         (sensor_size, _) = innovation.shape
         expected_innovation = editing_threshold * sqrt(2 * sensor_size) + sensor_size
         return normalized_innovation > expected_innovation
